@@ -665,6 +665,18 @@ def codec_parameters_are_used(model: Model, run: Run) -> None:
         if not takes_header:
             continue
         ok = uses_header_tag(m_)
+        # ... and the choice is live: the method's own `tag` parameter defaults to None ("not given"), so that a read by header alone
+        # reaches the place where header.tag is taken
+        a__ = m_.node.args
+        pos__ = a__.posonlyargs + a__.args
+        dfl__ = dict(zip([p_.arg for p_ in pos__][len(pos__) - len(a__.defaults):], a__.defaults))
+        dfl__.update({p_.arg: d_ for p_, d_ in zip(a__.kwonlyargs, a__.kw_defaults) if d_ is not None})
+        if ok and "tag" in dfl__ and not (isinstance(dfl__["tag"], ast.Constant) and dfl__["tag"].value is None):
+            run.ob("S13-header-tag-stands-in-for-the-default", False, {"method": m_.name, "tag_default": norm(dfl__["tag"])[:40]})
+            run.fail(Finding("S13-header-tag-stands-in-for-the-default", m_.qualname, f"{m_.name}|tag={norm(dfl__['tag'])[:40]}",
+                             f"{m_.name} declares `tag={norm(dfl__['tag'])[:50]}`: with a default that is never None the helper's `header.tag if header else ...` is dead, and a "
+                             "value read by its peeked header alone is checked against the universal tag instead of its own", model.loc(m_.module, m_.node)))
+            continue
         run.ob("S13-header-tag-stands-in-for-the-default", ok, {"method": m_.name})
         if not ok:
             run.fail(Finding("S13-header-tag-stands-in-for-the-default", m_.qualname, f"{m_.name}|header.tag", f"{m_.name} takes a peeked header but never lets `header.tag` be the expected tag: reading a "
